@@ -37,7 +37,7 @@ def _run(prog: Program, rep: Report, tier: str) -> None:
     # ---- D1
     n_loops = 0
     for f in m.functions.values():
-        if f.is_lambda or 'kmax' not in f.param_names():
+        if f.is_lambda or 'kmax' not in f.param_names() or prog.is_new_helper(f):   # a helper cut out of a solver is checked where it is inlined
             continue
         n_loops += check_budget_loops(rep, f, 'kmax', 'C02-D1 budget-must-warn')
     rep.floor('C02-D1', n_loops, 2)
